@@ -144,6 +144,28 @@ def run(ctx):
     unsupported = 0
     ctx.log("correspondence: %d cases, %d disagreements, %d panics" % (len(cmp_cases), bad, len(panics)))
 
+    # ---- 2b. ROUND 2: the explicit engine contract (EngineContract / contractB: whole matches increasing and
+    # non-overlapping, groups inside group 0, every range on character boundaries) evaluated by the model on every
+    # engine result that entered the correspondence; the theorems about offsets/lengths/reassembly assume it
+    rxc = {}
+    for c in cmp_cases:
+        if c[1].startswith("c13.rx matches "):
+            t = c[1].split(" ", 4)   # c13.rx matches G N <subject> <caps…>
+            if len(t) == 5:
+                rxc.setdefault("c13.rxc " + t[4], c[1])
+    rxc_reqs = sorted(rxc)
+    rxc_bad = 0
+    for req, ans in zip(rxc_reqs, ctx.model(rxc_reqs) if rxc_reqs else []):
+        if ans != "T":
+            rxc_bad += 1
+            if rxc_bad <= 5:
+                ctx.violation("c13-engine-contract:" + req,
+                              "the regex engine returned capture ranges outside the contract the C13 theorems assume "
+                              "(ordered, non-overlapping, groups inside the whole match, on character boundaries)",
+                              {"request": req, "from": rxc[req], "model": ans}, kind="no-failing-input-found",
+                              broken=["regex_offsets_under_contract", "splits_interleave_reassemble_contract"])
+    ctx.log("engine contract: %d engine results, %d outside the contract" % (len(rxc_reqs), rxc_bad))
+
     # ---- 3. in-language property oracles
     pout = ctx.harness(["c13", "props"])
     ptot, pfail, pdist = 0, 0, {}
@@ -238,6 +260,8 @@ def run(ctx):
         "property_oracle_distribution": pdist,
         "independent_consumer_checks": orc["counts"],
         "regex_oracle": {k: rxo[k] for k in ("checked", "objects", "engine_agree", "engine_differ", "engine_skipped")},
+        "engine_contract_checks": len(rxc_reqs),
+        "engine_contract_failures": rxc_bad,
         "tables_regenerated": {n: len(tabs[n]) for n in c13_tables.NAMES},
         "tables_changed_vs_bootstrap": bool(changed),
         "disagreements": bad,
@@ -250,7 +274,9 @@ def run(ctx):
         "bstr::decode_utf8 / char_indices segmentation = Jaq.Utf8.chunks (valid scalar or maximal invalid prefix = one position); correspondence on explode/length/slices/indices",
         "base64 STANDARD engine = alphabet from the real encoder + canonical padding required + zero trailing bits (hand model, correspondence on all strings up to length 4-5 over a 10-symbol alphabet and mutated encodings)",
         "urlencoding::decode_binary and aho-corasick replace_all_bytes (HTML_REPS) are hand models of third-party code, exercised on malformed input",
-        "the regex engine (regex-bites) is a parameter: its captures enter the model as byte ranges recovered from the real output with the harness's own UTF-8 segmentation",
+        "the regex engine (regex-bites) is a parameter: its captures enter the model as byte ranges recovered from the real output with the harness's own UTF-8 segmentation; "
+        "assumed contract (Lean: EngineContract): whole matches increasing / non-overlapping / inside the subject and groups inside group 0 (regex crate API guarantee), "
+        "every range starts and ends on a bstr character boundary (holds for regex-bites' decoder, not documented for invalid UTF-8) - evaluated by the model (contractB, proved equivalent) on every engine result of the run",
         "numbers in rows / @sh arguments are printed for integers and decimal literals only (the JSON number printer is C07's subject)",
         "/bin/sh (dash) and Python csv/html/urllib/base64/json/re are oracles for searching failing inputs, not part of the proof",
     ]
